@@ -1,13 +1,15 @@
 #!/bin/bash
-# tools/try_patch.sh <patch.diff> <ID> [tier]  : apply a seeded change to /repo, run the check, undo the change
+# tools/try_patch.sh <ABSOLUTE patch.diff> <ID> [tier]  : apply a seeded change to a scratch worktree of /repo HEAD, run the check
+# against it (VERIF_REPO), remove the worktree. /repo itself is never touched.
 set -u
 P=$1; ID=$2; TIER=${3:-quick}
-cd /repo || exit 9
-git diff --quiet || { echo "repo dirty"; exit 9; }
-if ! git apply --whitespace=nowarn "$P" 2>/tmp/apply_err.txt; then
-  if ! patch -p1 --binary -s < "$P" >/tmp/apply_err.txt 2>&1; then echo "PATCH DOES NOT APPLY: $(head -3 /tmp/apply_err.txt)"; git checkout -- .; exit 8; fi
+WT=$(mktemp -d /tmp/ddsvt_trywt_XXXX); rmdir "$WT"
+git -C /repo worktree add -q --detach "$WT" HEAD || exit 9
+OUT=$(mktemp -d /tmp/ddsvt_tryout_XXXX)
+trap 'git -C /repo worktree remove --force "$WT" 2>/dev/null; rm -rf "$WT" "$OUT"' EXIT
+if ! git -C "$WT" apply --whitespace=nowarn "$P" 2>/dev/null; then
+  if ! patch -p1 --binary -s -d "$WT" < "$P" >/dev/null 2>&1; then echo "PATCH DOES NOT APPLY"; exit 8; fi
 fi
-cd /verif && ./check "$ID" --tier "$TIER" 2>&1 | grep -E "cause=|^VIOLATION|^KNOWN|HARNESS|tier=" | cut -c1-220 | head -${LINES_MAX:-12}
+cd /verif && VERIF_REPO="$WT" VERIF_OUT="$OUT" /venv/bin/python -m vt.runner "$ID" --tier "$TIER" 2>&1 | grep -E "cause=|^VIOLATION|^KNOWN|HARNESS|tier=" | cut -c1-220 | head -${LINES_MAX:-12}
 rc=${PIPESTATUS[0]}
-cd /repo && git checkout -- . && git clean -fdq dds 2>/dev/null
 echo "exit=$rc"
